@@ -41,7 +41,44 @@ pub fn push_generic(t: &RTlv, log: &mut Vec<i128>) {
     }
 }
 
+/// 902: a typed reader where its value is ABSENT - the input or the enclosing SEQUENCE ends, or a value
+/// with a foreign (private) tag stands there. The mandatory readers must fail; the optional ones must
+/// report absence, and the foreign value is then still there to be read.
+fn absent_case(em: &mut Emitter, which: u8, mode: u8, shape: u8, follower: bool) {
+    use bcder::decode::{Constructed, IntoSource};
+    let sib: &[u8] = if follower { &[0xdf, 0x7f, 0x01, 0x00] } else { &[] };
+    let data: Vec<u8> = match shape {
+        0 => sib.to_vec(),
+        1 => { let mut v = vec![0x30, sib.len() as u8]; v.extend_from_slice(sib); v }
+        _ => { let mut v = vec![0x30, 0x80]; v.extend_from_slice(sib); v.extend_from_slice(&[0, 0]); v }
+    };
+    em.case(902, &[num_arg(which), num_arg(mode), num_arg(shape), num_arg(follower as u8), bytes_arg(&data)], || {
+        fn body<S: bcder::decode::Source>(which: u8, follower: bool, c: &mut Constructed<S>) -> Result<(), bcder::decode::DecodeError<S::Error>> {
+            crate::c14::typed_leaf(which, c)?;
+            if follower { c.take_primitive_if(bcder::Tag::private(127), |p| p.skip_all())?; }
+            Ok(())
+        }
+        let r = catch(|| Constructed::decode(data.as_slice().into_source(), mode_of(mode), |c| {
+            if shape == 0 { body(which, follower, c) } else { c.take_sequence(|k| body(which, follower, k)) }
+        }).is_ok());
+        let optional = (20..=22).contains(&which);
+        let orc = match r {
+            None => Oracle::Fail("panic".into()),
+            Some(ok) if ok == optional => Oracle::Pass,
+            Some(true) => Oracle::Fail("mandatory-read-of-an-absent-value-succeeds".into()),
+            Some(false) => Oracle::Fail("optional-read-of-an-absent-value-fails-or-loses-what-follows".into()),
+        };
+        (Ints::new().n(1), orc, true)
+    });
+}
+
 pub fn run(em: &mut Emitter, rng: &mut Rng, thorough: bool) {
+    for which in 0..28u8 { for mode in 0..3u8 { for shape in 0..3u8 { for follower in [false, true] {
+        if (shape == 2 && mode == 2) || (shape == 1 && mode == 1) { continue }   // DER: definite only; CER: indefinite only
+        // the readers that take a value of any tag find the foreign value: not an absence
+        if follower && (24..=27).contains(&which) { continue }
+        absent_case(em, which, mode, shape, follower);
+    }}}}
     let ctxs = [Ctx::Top, Ctx::Definite, Ctx::Indefinite];
     for _ in 0..(if thorough { 40_000 } else { 5_000 }) {
         let mode = rng.below(3) as u8;
